@@ -18,7 +18,10 @@ LINES = [b"gemini://h/", b"gemini://h/a?b", b"gemini://[::1]/", b"http://h/", b"
          b"GEMINI://H/", b"gemini://h:1965/", b"gemini://h:70000/", b"gemini://[zz]/", b"gemini://h/%41",
          b"titan://h/f;size=3", b"titan://h/f;size=0", b"titan://h/f;size=10;mime=text/plain;token=t", b"titan://h/f", b"titan://h/f;size=x",
          b"titan://h/f;size=-1", b"titan://h/f;size= 4 ", b"titan://h/f;size=1;size=2", b"titan://u@h/f;size=1", b"titan://h/f;mime=a",
-         b"TITAN://h/f;size=1", b"titan://h/f;size=1_0", b"titan://h/f;size=+2", b"titan://h/f;size=3#x", b"titan:///f;size=1"]
+         b"TITAN://h/f;size=1", b"titan://h/f;size=1_0", b"titan://h/f;size=+2", b"titan://h/f;size=3#x", b"titan:///f;size=1",
+         # valid lines with multi-byte UTF-8 sequences (2, 3 and 4 bytes): a read boundary may fall inside any of them
+         "gemini://h/caf\u00e9".encode(), "gemini://h/\u65e5\u672c\u8a9e?q=\u00fc".encode(), "gemini://h/\U0001f600/\u00e9\u00e8".encode(),
+         "titan://h/\u00fc\u00f1\u00ee;size=2".encode(), "gemini://h/\u00e9".encode() + b"\xc3", b"gemini://h/\xe6\x97"]
 
 
 def gen_resp(rnd):
